@@ -1,11 +1,120 @@
-/- Driver ops for C20. -/
+/- Driver ops for C20 (triangle sets), exact rational arithmetic; `h` = HEIGHT_FACTOR as a rational. -/
 import Driver.Loop
+import Model.Triangles
 
 open Lean Model
 
 namespace Driver.C20
 
-def ops : List (String × Op) := []
+def getPairR (j : Json) : Except String (Rat × Rat) := do
+  match ← getArr j with
+  | [a, b] => pure (← getRat a, ← getRat b)
+  | _ => throw "expected pair"
+
+def getPairI (j : Json) : Except String (Int × Int) := do
+  match ← getArr j with
+  | [a, b] => pure (← getInt a, ← getInt b)
+  | _ => throw "expected int pair"
+
+def getTripleN (j : Json) : Except String (Nat × Nat × Nat) := do
+  match ← getArr j with
+  | [a, b, c] => pure (← getNat a, ← getNat b, ← getNat c)
+  | _ => throw "expected index triple"
+
+def pairRJson (p : Rat × Rat) : Json := Json.arr #[ratToJson p.1, ratToJson p.2]
+def pairIJson (p : Int × Int) : Json := Json.arr #[intToJson p.1, intToJson p.2]
+def tripleJson (p : Nat × Nat × Nat) : Json := Json.arr #[natToJson p.1, natToJson p.2.1, natToJson p.2.2]
+def triJson (t : Tri Rat) : Json := Json.arr #[pairRJson t.v0, pairRJson t.v1, pairRJson t.v2]
+
+def getTri (j : Json) : Except String (Tri Rat) := do
+  match ← getArr j with
+  | [a, b, c] => pure ⟨← getPairR a, ← getPairR b, ← getPairR c⟩
+  | _ => throw "expected triangle"
+
+def getArrTris (j : Json) : Except String (Impl.ArrTris Rat) := do
+  let vs ← getList getPairR (← field j "vertices")
+  let idx ← getList getTripleN (← field j "indices")
+  if idx.any (fun i => i.1 ≥ vs.length || i.2.1 ≥ vs.length || i.2.2 ≥ vs.length) then
+    throw "index_error"
+  pure { indices := idx, vertices := vs }
+
+def getCoordTris (j : Json) : Except String (Impl.CoordTris Rat) := do
+  pure { coords := ← getList getPairI (← field j "coords"),
+         side := ← getRat (← field j "side"),
+         xOff := ← getRat (← field j "x_offset"),
+         yOff := ← getRat (← field j "y_offset"),
+         flipped := ← getBool (← field j "flipped") }
+
+inductive ChainOp where
+  | up | nb | idx (l : List Nat)
+
+def getChainOp (j : Json) : Except String ChainOp :=
+  match j with
+  | .str "up" => pure .up
+  | .str "nb" => pure .nb
+  | _ => do pure (.idx (← getNats (← field j "idx")))
+
+def arrChain : Op := fun j => do
+  let a0 ← getArrTris (← field j "arr")
+  let ops ← getList getChainOp (← field j "ops")
+  let a ← ops.foldlM (fun (a : Impl.ArrTris Rat) op =>
+    match op with
+    | .up => pure a.upSample
+    | .nb => pure a.neighborhood
+    | .idx l => if l.any (· ≥ a.indices.length) then throw "index_error" else pure (a.forIndexes l)) a0
+  pure (obj [("triangles", listToJson triJson a.triangles), ("n", natToJson a.triangles.length),
+             ("area", ratToJson (Impl.area a.triangles)),
+             ("vertices", listToJson pairRJson a.vertices),
+             ("indices", listToJson tripleJson a.indices)])
+
+def coordChain : Op := fun j => do
+  let c0 ← getCoordTris (← field j "coord")
+  let h ← getRat (← field j "h")
+  let ops ← getList getChainOp (← field j "ops")
+  let c ← ops.foldlM (fun (c : Impl.CoordTris Rat) op =>
+    match op with
+    | .up => pure (c.upSample h)
+    | .nb => pure c.neighborhood
+    | .idx l => if l.any (· ≥ c.coords.length) then throw "index_error" else pure (c.forIndexes l)) c0
+  let view := c.arrayView h
+  pure (obj [("coords", listToJson pairIJson c.coords), ("side", ratToJson c.side),
+             ("x_offset", ratToJson c.xOff), ("y_offset", ratToJson c.yOff),
+             ("flipped", Json.bool c.flipped),
+             ("triangles", listToJson triJson (c.triangles h)),
+             ("flip_mask", boolsToJson (c.coords.map (Impl.flipMask1 c.flipped))),
+             ("area", ratToJson (c.area h)), ("n", natToJson c.coords.length),
+             ("view_triangles", listToJson triJson view.triangles),
+             ("view_vertices", listToJson pairRJson view.vertices)])
+
+def coordLimits : Op := fun j => do
+  let g (k : String) : Except String Rat := do getRat (← field j k)
+  let scale ← g "scale"
+  let h ← g "h"
+  if scale == 0 || h == 0 then throw "zero_division"
+  pure (listToJson pairIJson
+    (Impl.coordsForLimits truncRat h (← g "x_min") (← g "x_max") (← g "y_min") (← g "y_max") scale))
+
+def getShape (j : Json) : Except String (Impl.Shape Rat) := do
+  let kind ← getStr (← field j "kind")
+  let g (k : String) : Except String Rat := do getRat (← field j k)
+  match kind with
+  | "point" => pure (.point (← g "x") (← g "y"))
+  | "circle" => pure (.circle (← g "x") (← g "y") (← g "radius"))
+  | "square" => pure (.square (← g "top") (← g "bottom") (← g "left") (← g "right"))
+  | "polygon" =>
+    let vs ← getList getPairR (← field j "vertices")
+    if vs.length < 3 then throw "bad_polygon" else pure (.polygon vs)
+  | _ => throw "bad shape"
+
+def shapeMask : Op := fun j => do
+  let ts ← getList getTri (← field j "triangles")
+  let s ← getShape (← field j "shape")
+  pure (obj [("indices", natsToJson (Impl.containingIndices s ts)),
+             ("ref", pairRJson s.ref)])
+
+def ops : List (String × Op) :=
+  [("c20.arr_chain", arrChain), ("c20.coord_chain", coordChain), ("c20.coord_limits", coordLimits),
+   ("c20.shape_mask", shapeMask)]
 
 end Driver.C20
 
